@@ -138,7 +138,8 @@ INSTANCES = [
          other=[('loop', 'give-up: Ridder iteration lost the bracket')], what='bracket without sign change / NaN ends'),
     # ---- integration
     dict(id='Integrate(method)', fn=L + 'Integrate', sel=lambda f: any('method' == p['name'] for p in f.params),
-         rows=[dict(method=m, a=0.0, b=1.0) for m in NAMES], spec=lambda r: r['method'] not in METHODS_1D, uses=None),
+         rows=[dict(method=m, a=0.0, b=1.0) for m in NAMES] + [dict(method=m, a=1.0, b=1.0) for m in NAMES],
+         spec=lambda r: r['method'] not in METHODS_1D, uses=None),
     dict(id='Integrate_2D', fn=L + 'Integrate_2D',
          rows=[dict(method=m) for m in NAMES], spec=lambda r: r['method'] not in METHODS_1D + METHODS_MC, uses=None),
     dict(id='Integrate_3D', fn=L + 'Integrate_3D', sel=lambda f: len(f.params) == 9 and 'Vector' not in f.params[0]['ty'],
@@ -191,6 +192,7 @@ INSTANCES = [
 # request that may be meaningful; 'environment' = depends on the file system; 'data-guard' = depends on values.
 CLASSIFIED = [
     (L + 'Transpose_Lists', 'size()', 'loop-guard: ragged list of lists'),
+    (L + 'Minimization::minimize', 'empty()', 'data-guard: a simplex without points (tables of length 0)'),
     (L + 'Integrate_MC_Vegas', 'isnan', 'give-up: integral became NaN'),
     (L + 'Matrix::Matrix', 'size() != columns', 'loop-guard: ragged matrix entries'),
     (L + 'Matrix::Matrix', 'valid_dimension', 'loop-guard: block dimensions'),
